@@ -321,6 +321,40 @@ def gen_file(path, rel):
             other = vals[(i + 1) % len(vals)]
             emit(a, b, raw[0] + other + raw[0], "strswap", x)
 
+    # the wrong attribute of self (another one read in the same function),
+    # and a result thrown away (return X -> return None)
+    for fn_ in ast.walk(tree):
+        if not isinstance(fn_, (ast.FunctionDef, ast.AsyncFunctionDef)):
+            continue
+        attrs = []
+        for x in ast.walk(fn_):
+            if isinstance(x, ast.Attribute) and isinstance(
+                    x.value, ast.Name) and x.value.id in ("self", "node") \
+                    and isinstance(x.ctx, ast.Load) and id(x) not in annot:
+                par = getattr(x, "_parent", None)
+                if isinstance(par, ast.Call) and par.func is x:
+                    continue          # a method call
+                attrs.append(x)
+        for base in ("self", "node"):
+            names = sorted({x.attr for x in attrs if x.value.id == base})
+            if len(names) < 2:
+                continue
+            for x in attrs:
+                if x.value.id != base:
+                    continue
+                a, b = span(x, starts, bsrc)
+                other = names[(names.index(x.attr) + 1) % len(names)]
+                emit(a, b, "%s.%s" % (base, other), "attrswap", x)
+        is_gen = any(isinstance(y, (ast.Yield, ast.YieldFrom))
+                     for y in ast.walk(fn_))
+        if not is_gen:
+            for r_ in ast.walk(fn_):
+                if isinstance(r_, ast.Return) and r_.value is not None and \
+                        not (isinstance(r_.value, ast.Constant) and
+                             r_.value.value is None):
+                    a, b = span(r_.value, starts, bsrc)
+                    emit(a, b, "None", "retnone", r_)
+
     # string literals: generated-code fragments and regular expressions
     FRAG = [(r" is not ", " is "), (r" is not ", " != "), (r" is ", " == "),
             (r" == ", " != "), (r" != ", " == "), (r" and ", " or "),
